@@ -41,6 +41,10 @@ claim("C03", "static analysis: memoised SSA path walk from the true edge of ever
       "Decides: ParseInt32/ParseBool/ParseInt64 copy exactly the field's leading bytes and advance by its width, and CanIRead advances by the same width per ReadType; at each of the ~148 guard sites every path's read sequence is a prefix of the guard's list by width class and some path consumes the whole list; every Parse* in TaskDispatch is reachable only through the true edge of a guard on its parser; CanIRead-conditioned loops consume on every path back; Agent.NameID is stored only by the three constructors; AgentAdd is on the !AgentExist(header id) edge; ParseDemonRegisterRequest returns a session only where inner id == header id and stores the 32+16 key/IV bytes read. Not decided: UTF-16/NUL-stripping semantics, console formatting fidelity, the Demon's PackageAdd order (wire schema vs C source).",
       TRUST, "DESIGN.md §3 R2, §4 C03")
 
+claim("C01", "static analysis over the CHA-reachable scope of the listener handlers: difference-constraint bounds prover on SSA with field-stability (mod-summary) reasoning, dynamic-type and nullable-result dataflow, lock-pairing and range-mutation CFG rules, loop classification, reachability of state changes before rejections",
+      "Decides for the ~120 functions reachable from HTTP.request / External.Request: every index/slice is in bounds (proved, or listed with its argument in tables/bounds_reviewed.json); every unchecked type assertion has a dynamic type fixed by construction; every dereference of a nullable result or optional field (incl. nullable arguments to callees that dereference them) is dominated by a nil/existence test; no reachable panic/Fatal/Exit, divide-by-zero or nil-map write; every loop is range/counted/CanIRead-conditioned with progress or reviewed; every mutex acquired is released on every path; no slice is shrunk inside its own range loop without leaving it; no state-changing call precedes a rejecting return and the failing edge reaches the decoy. Not decided: stack/memory exhaustion, blocking inside third-party service round-trips, concurrency (see C04/C15).",
+      TRUST + " tables/bounds_reviewed.json lists the residue (index, nil, loop and abort obligations) the prover cannot reach, each with its argument; heap-slice equalities assume no concurrent writer.", "DESIGN.md §3 R1/R3/R5, §4 C01")
+
 for i in range(1, 21):
     pid = "C%02d" % i
     if pid not in CLAIMS and pid not in NA:
